@@ -92,6 +92,14 @@ func (s *Spy) Write(b []byte) (int, error) {
 			case 2:
 				s.req.ev(EvSpyWrite, 0, 0, "error")
 				return 0, ErrInjected
+			case 3: // short write reported without an error
+				k := f.Keep
+				if k > len(b) {
+					k = len(b)
+				}
+				s.Body = append(s.Body, b[:k]...)
+				s.req.ev(EvSpyWrite, 0, k, "short-no-error")
+				return k, nil
 			}
 		}
 	}
